@@ -16,8 +16,9 @@ import (
 
 // Clause is one requires / ensures / invariant line of a contract.
 type Clause struct {
-	Name string
-	Text string
+	Name  string
+	Text  string
+	Props []string // properties this clause decides (default: the contract's option props)
 }
 
 type NamedFormula struct {
@@ -99,10 +100,15 @@ func ParseContractFile(path string, pkgPath string) ([]*Contract, error) {
 		}
 		kw, rest, _ := strings.Cut(body, " ")
 		rest = strings.TrimSpace(rest)
+		var cprops []string
+		if i := strings.Index(kw, "["); i > 0 && strings.HasSuffix(kw, "]") {
+			cprops = strings.Split(kw[i+1:len(kw)-1], ",")
+			kw = kw[:i]
+		}
 		mk := func(kind string) *Clause {
 			n := counts[kind]
 			counts[kind]++
-			return &Clause{Name: fmt.Sprintf("%s#%d", kind, n), Text: rest}
+			return &Clause{Name: fmt.Sprintf("%s#%d", kind, n), Text: rest, Props: cprops}
 		}
 		switch kw {
 		case "requires":
@@ -297,6 +303,33 @@ func (env *cenv) formulaText(text string) (string, error) {
 		}
 		return fmt.Sprintf("(forall ((%s Int)) (=> (and (<= %s %s) (< %s %s)) %s))", bv, lo.s, bv, bv, hi.s, b), nil
 	}
+	if strings.HasPrefix(text, "forallstr ") {
+		head, body, ok := cutTop(text, ":")
+		if !ok {
+			return "", fmt.Errorf("forallstr without ':'")
+		}
+		name := strings.TrimSpace(strings.TrimPrefix(strings.TrimSpace(head), "forallstr"))
+		bv := "qs_" + name
+		saved, had := env.vars[name]
+		env.vars[name] = tv{s: bv, t: types.Typ[types.String], srt: "Str"}
+		b, err := env.formulaText(body)
+		if had {
+			env.vars[name] = saved
+		} else {
+			delete(env.vars, name)
+		}
+		if err != nil {
+			return "", err
+		}
+		pat := ""
+		if _, used := env.e.heapSorts[fsKey]; used {
+			pat = fmt.Sprintf(" :pattern ((select %s %s))", env.e.fsNow(env.st), bv)
+		}
+		if pat != "" {
+			return fmt.Sprintf("(forall ((%s Str)) (! %s%s))", bv, b, pat), nil
+		}
+		return fmt.Sprintf("(forall ((%s Str)) %s)", bv, b), nil
+	}
 	// implication (lowest precedence, right associative)
 	if l, r, ok := cutTop(text, "==>"); ok {
 		a, err := env.formulaText(l)
@@ -377,6 +410,10 @@ func (env *cenv) tr(x ast.Expr) (tv, error) {
 		if sf, ok := specConsts[n.Name]; ok {
 			return sf(env)
 		}
+		if rv := env.e.Fn.Signature.Recv(); rv != nil && n.Name == rv.Name() && len(env.e.Fn.Params) > 0 {
+			p := env.e.Fn.Params[0]
+			return tv{s: env.e.val[p], t: p.Type(), srt: env.e.D.SortOf(p.Type())}, nil
+		}
 		return tv{}, fmt.Errorf("unknown identifier %q", n.Name)
 	case *ast.BasicLit:
 		switch n.Kind {
@@ -455,6 +492,9 @@ func (env *cenv) tr(x ast.Expr) (tv, error) {
 		}
 		if base.srt == "Str" {
 			return tv{s: sx("sat", base.s, idx.s), t: types.Typ[types.Uint8], srt: "Int"}, nil
+		}
+		if base.srt == "FS" {
+			return tv{s: sx("select", base.s, idx.s), srt: "FState"}, nil
 		}
 		if base.t != nil {
 			switch u := base.t.Underlying().(type) {
